@@ -185,7 +185,13 @@ func evalC09(e *Eval) {
 	sqlOut, sqlPi := e.L.RunTarget(prog.TSQL, ans)
 	var tsEnv *tsparse.Env
 	if tsPi == nil {
-		tsEnv, _ = tsparse.Parse(tsOut[""])
+		var tsErr error
+		tsEnv, tsErr = tsparse.Parse(tsOut[""])
+		if tsErr != nil {
+			// a property written so that TypeScript cannot read it declares no key at all
+			tsEnv = nil
+			e.Fail("typescript-keys", "TypeScript output cannot be read", "the TypeScript output is not in the subset of TypeScript the generator writes, so its properties declare no key: "+tsErr.Error())
+		}
 	}
 	var sqlSchema *sqlddl.Schema
 	if sqlPi == nil {
